@@ -1,5 +1,5 @@
 """C06 — reference resolution follows RFC 3986 section 5.2."""
-import json
+import json, os
 import lib, uris
 from lib import enc, enc_s, dec, show
 
@@ -23,7 +23,8 @@ def gen_pairs(chk, mdl):
     return refs, bases
 
 def run(chk):
-    proofs = lib.check_proofs(PID)
+    extra = tuple(x for x in ("C06text",) if os.path.exists(os.path.join(lib.COQ, "Props", x + ".v")))
+    proofs = lib.check_proofs(PID, extra_props=extra)
     exes = lib.build_impl(); mdl = lib.build_model()
     fnd = lib.Findings(PID)
     refs, bases = gen_pairs(chk, mdl)
